@@ -513,6 +513,7 @@ func (s *c17aSB) subst(b []byte) []byte {
 
 // ---------------------------------------------------------------- exec
 
+var c17aScrollIDRe = regexp.MustCompile(`"_scroll_id":"([0-9a-f-]{36})"`)
 var c17aRouteIDRe = regexp.MustCompile(`^[A-Z]+/[!-~]*$`)
 
 func c17aProbeReq() []byte {
@@ -632,6 +633,25 @@ func c17aExec(line string) Result {
 		replace()
 		res.Tags = tags
 		return res
+	}
+	// a client that scrolls: an answer that carries a scroll id is continued (two more pages)
+	if m := c17aScrollIDRe.FindSubmatch(a.body); m != nil && f[0] == "rq" {
+		tags = append(tags, "scroll-continued")
+		for page := 0; page < 2; page++ {
+			body := `{"scroll":"1m","scroll_id":"` + string(m[1]) + `"}`
+			c := c17aHTTP(s.qport, c17aReqBytes("POST", "/elastic/_search?scroll=1m", [][2]string{{"Content-Type", "application/json"}}, []byte(body)), c17aAnswerDeadline)
+			if s.hasExited() || (c.err != "" && c17aGone(s, s.qport)) {
+				suffix, msg := s.died()
+				fail("alive/"+route+"/process-died"+suffix, fmt.Sprintf("%s (while answering page %d of the scroll the request opened: POST /elastic/_search?scroll=1m %s); request: %s", msg, page+2, body, witness))
+				tags = append(tags, "died")
+				replace()
+				res.Tags = tags
+				return res
+			}
+			if c.status != 200 {
+				break
+			}
+		}
 	}
 	// (3) a trivial query
 	p := c17aHTTP(s.qport, c17aProbeReq(), c17aProbeDeadline)
@@ -799,7 +819,7 @@ func c17aHexOrDash(s string) string {
 //
 //	om: T:<err | metric;key=value/and|or,…> A:<err | aggregator/interval/unit/downsample aggregator/cflag>
 //	ot: rel-ok | rel-err | abs        (a time ending in "-ago": accepted or not; anything else: only that the parser returns)
-func c17aExecModel(f []string) Result {
+func c17aExecModel(f []string) (res Result) {
 	if len(f) == 1 {
 		f = append(f, "")
 	}
@@ -811,7 +831,15 @@ func c17aExecModel(f []string) Result {
 		return Result{Out: "bad-op"}
 	}
 	text := string(tb)
-	res := Result{Nontrivial: len(text) >= 4, Tags: []string{"model:" + f[0]}}
+	res = Result{Nontrivial: len(text) >= 4, Tags: []string{"model:" + f[0]}}
+	// the property itself: the parser returns (a panic here is what ends the server when the text arrives in a request)
+	defer func() {
+		if rec := recover(); rec != nil {
+			what := map[string]string{"om": "otsdb-metric-expression", "ot": "otsdb-time"}[f[0]]
+			res = Result{Out: "panic", Nontrivial: true, Tags: []string{"model:" + f[0], "panic"},
+				Fails: []PropFail{{Sig: "alive/parser/" + what + "/panic", Msg: fmt.Sprintf("the parser panicked (%v) for %q", rec, trunc(text, 200))}}}
+		}
+	}()
 	if f[0] == "ot" {
 		_, err := otsdbquery.VerifParseTime(text)
 		switch {
